@@ -26,6 +26,9 @@ def _setup_bytecode_cache():
     # under /verif/build (keyed by source path + mtime) instead of recompiling per process
     sys.dont_write_bytecode = False
     sys.pycache_prefix = os.path.join(fw.BUILD, "pycache")
+    # dumping .glob files costs 45 of the 55 s of a 250-case shard
+    if "-noglob" not in fw.COQ_FLAGS:
+        fw.COQ_FLAGS.append("-noglob")
 
 
 class _Alarm(Exception):
@@ -263,9 +266,11 @@ def coq_order_case(names, deps, params):
     return "(%s, %s)" % (fs, ps)
 
 
-def order_property_failure(n, order, mentions, valid_positions):
+def order_property_failure(n, order, mentions, wide=None):
     """The three clauses of the property on a concrete order.  mentions[i] = set of local field
-    numbers field i mentions.  Returns a message or None."""
+    numbers field i mentions (wide[i]: including those in the field's type, used for the
+    source-order clause).  Returns a message or None."""
+    wide = wide or mentions
     if sorted(order) != list(range(n)):
         return "order %s is not a permutation of the %d fields" % (order, n)
     pos = {f: k for k, f in enumerate(order)}
@@ -273,7 +278,7 @@ def order_property_failure(n, order, mentions, valid_positions):
         for j in mentions[i]:
             if pos[j] >= pos[i]:
                 return "field %d is placed at %d, not after field %d (at %d) which it mentions" % (i, pos[i], j, pos[j])
-    if all(j < i for i in range(n) for j in mentions[i]) and order != list(range(n)):
+    if all(j < i for i in range(n) for j in wide[i]) and order != list(range(n)):
         return "source order is a valid dependency order but the result is %s" % order
     return None
 
@@ -372,17 +377,18 @@ class OrderCapture:
 
 
 def independent_mentions(structure):
-    """Field numbers mentioned by each field's location, existence condition and value, found by an
-    independent walk of the serialised IR (not through traverse_ir / _find_dependencies)."""
+    """Field numbers mentioned by each field, found by an independent walk of the serialised IR (not
+    through traverse_ir / _find_dependencies).  Returns (narrow, wide): narrow = location, existence
+    condition and value; wide = additionally the field's type (arguments, array lengths), i.e. every
+    field reference in the field outside attributes."""
     from compiler.util import ir_data_utils, ir_util
     names = [ir_util.hashable_form_of_reference(f.name) for f in structure.field]
     index = {nm: i for i, nm in enumerate(names)}
-    out = []
+    narrow, wide = [], []
     for f in structure.field:
         d = ir_data_utils.IrDataSerializer(f).to_dict(exclude_none=True)
-        found = set()
 
-        def walk(x):
+        def walk(x, found):
             if isinstance(x, dict):
                 fr = x.get("field_reference")
                 if isinstance(fr, dict) and fr.get("path"):
@@ -390,15 +396,19 @@ def independent_mentions(structure):
                     if cn:
                         found.add((cn.get("module_file", ""),) + tuple(cn.get("object_path", [])))
                 for k, v in x.items():
-                    walk(v)
+                    if k != "attribute":
+                        walk(v, found)
             elif isinstance(x, list):
                 for v in x:
-                    walk(v)
+                    walk(v, found)
+        a, b = set(), set()
         for part in ("location", "existence_condition", "read_transform"):
             if part in d:
-                walk(d[part])
-        out.append({index[nm] for nm in found if nm in index})
-    return out
+                walk(d[part], a)
+        walk(d, b)
+        narrow.append({index[nm] for nm in a if nm in index})
+        wide.append({index[nm] for nm in b if nm in index})
+    return narrow, wide
 
 
 # ------------------------------------------------------------------------------
@@ -545,7 +555,8 @@ def module_cases(ctx, files, main, label, desc, graph_cases, order_cases):
                           dict(kind="modules", files=files, main=main), found_input=True)
         else:
             exp = "Done [%s]" % "; ".join(str(x) for x in rec["result"])
-            msg = order_property_failure(n, rec["result"], independent_mentions(rec["structure"]), None)
+            narrow, wide = independent_mentions(rec["structure"])
+            msg = order_property_failure(n, rec["result"], wide, wide)
             if msg:
                 ctx.violation("order-wrong", "fields_in_dependency_order of %s in %s: %s" % (rec["names"][0][:-1], label, msg),
                               dict(kind="modules", files=files, main=main, structure=list(rec["names"][0][:-1]),
@@ -630,11 +641,19 @@ def run(ctx):
                 "through the real front end.  A case is non-trivial when it has at least one edge / two fields; distinct by content")
     ctx.trusted = ["Coq 8.16.1 kernel, vm_compute", "harness/props/c15.py (numbering of nodes, capture of the ordering pass's arguments, independent SCC by transitive closure)",
                    "harness/gen_deps.py", "CPython 3.12 running /repo's front end"]
-    ctx.assumptions = ["node labels are compared by identity of their hashable form (module file, object path)",
+    ctx.assumptions = ["'the fields a field mentions' = every field reference inside the field except in attributes: location, existence condition, value, and also the arguments / array length of its type (testdata/parameters.emb AxisPair is reordered because `Axis(axis_type_a)` mentions a later field)",
+                       "node labels are compared by identity of their hashable form (module file, object path)",
                        "Python's recursion limit is not modelled: the mirror has fuel |graph|+1, the interpreter about 1000 frames"]
     ctx.audit()
     ctx.check_theorems("EmbossV.Deps.Properties_C15", "Deps/Properties_C15.v", expect_min=5)
 
+    phases = ctx.extra.setdefault("phase_s", {})
+    t_ph = [time.time()]
+
+    def phase(name):
+        phases[name] = round(time.time() - t_ph[0], 1)
+        t_ph[0] = time.time()
+    phase("coq-build")
     graph_cases, order_cases = [], []
     replay_corpus(ctx, graph_cases, order_cases)
 
@@ -651,12 +670,14 @@ def run(ctx):
                  sample=dict(graph=c[2]["rows"][:8], implementation=c[2]["py"]))
         graph_cases.append(c)
 
+    phase("random-graphs")
     # (b) the ordering function directly
     n_ord = 12000 if ctx.thorough() else 2500
     for i in range(n_ord):
         names, deps, params, mode = random_ordering_input(ctx.rng)
         add_ordering_case(ctx, names, deps, params, mode, order_cases)
 
+    phase("random-orderings")
     # (c) modules
     n_mod = 1500 if ctx.thorough() else 160
     for i in range(n_mod):
@@ -664,10 +685,12 @@ def run(ctx):
         files = dm.file_map()
         ctx.count("shape:" + dm.shape)
         module_cases(ctx, files, "m0.emb", "gen:%d:%s" % (i, dm.shape), dm.planted(), graph_cases, order_cases)
+    phase("generated-modules")
     for p in sorted(glob.glob(os.path.join(fw.REPO, "testdata", "*.emb"))):
         rel = os.path.relpath(p, fw.REPO)
         module_cases(ctx, {rel: open(p).read()}, rel, "testdata:" + rel, None, graph_cases, order_cases)
 
+    phase("testdata-modules")
     # model side
     runner = fw.CoqCases(ctx, "graphs", HEADER, "run_graph", "run_graph_eqb", "graph",
                          "(bool * bool * tres (list (list N)))", shard=250)
@@ -682,6 +705,7 @@ def run(ctx):
                       dict(kind="graph", correspondence="Deps.Exec.run_graph vs dependency_checker._find_cycles",
                            graph=[[k, r] for k, r in obj["rows"]], implementation=obj["py"], independent_sccs=obj["ind"],
                            model_outputs=out[:2000]), found_input=False)
+    phase("coq-graphs")
     runner = fw.CoqCases(ctx, "orders", HEADER, "run_order", "ores_eqb", "(graph * list N)", "ores", shard=400)
     bad = runner.run(order_cases)
     ctx.obligation("correspondence: %d field lists — implementation's order = Order.dep_order" % len(order_cases), not bad)
@@ -691,5 +715,6 @@ def run(ctx):
                       dict(kind="ordering", correspondence="Deps.Exec.run_order vs _find_dependency_ordering_for_fields_in_structure",
                            input=a, implementation=b, detail={k: v for k, v in obj.items() if k in ("replay", "names", "files", "main")},
                            model_outputs=out[:2000]), found_input=False)
+    phase("coq-orders")
     ctx.extra["graphs_compared"] = len(graph_cases)
     ctx.extra["orderings_compared"] = len(order_cases)
